@@ -45,6 +45,9 @@ def random_spec(rng, big=False):
         "flat_power": rng.random() < 0.2,
         # the trace also holds host slices at the very origin of the time axis (ts == 0 as int and as float)
         "origin": rng.random() < 0.3,
+        # collective-free jobs only: the rank ids (pids) start at 1 or 2 instead of 0 (one rank of a larger job, or
+        # ranks 2.. analysed alone)
+        "pid_base": rng.choice([0, 0, 0, 1, 2]),
     }
 
 
@@ -62,10 +65,14 @@ def build(spec):
         ranks = []
         for r in range(R):
             de = dev_epochs[r] if dev_epochs else rng.randrange(0, sc.M32 // 2, 512)
-            rk = sc.Rank(r, 512.0, HOST_EPOCH, de)
+            rk = sc.Rank(r + int(spec.get("pid_base", 0)), 512.0, HOST_EPOCH, de)
             t = 100.0
             for k in range(spec["kernels"] + 1):
                 t = sc.kernel(rk, f"mm_{k}", t + 3)
+            # one transfer name used twice: once as a plain device-to-host copy, once as part of a collective
+            rk.dev_event("stage_out_1 DmaO", sc.TID_SEND, [t + 5, t + 5, t + 5, t + 6, t + 9])
+            rk.dev_event("stage_out_1 DmaO", sc.TID_SEND, [t + 12, t + 12, t + 12, t + 13, t + 16],
+                         {"CollGroup": "AllReduce_all_reduce_70", "Peer": str(rk.r), "Type": "SingleCast", "Bytes": "64"})
             ranks.append(rk)
     if spec.get("stale") and len(ranks) == 2:      # with more ranks mp_sync demands every rank in every group
         cg = "AllReduce_all_reduce_90"
@@ -142,6 +149,10 @@ def build(spec):
             host("origin_x", 506, 0.0 - HOST_EPOCH, 0.5 - HOST_EPOCH, x_form=True)           # ts == 0, dur 0.5
             pairs[-1][0]["ts"] = 0                                                            # an integer zero
             host("origin_be", 507, 0.0 - HOST_EPOCH, 0.25 - HOST_EPOCH)                       # B at 0.0, E at 0.25
+        # a few nanoseconds of overlap: a short slice that starts 2 ns before its predecessor ends and ends 1 ns after it
+        if spec.get("tiny_overlap", True):
+            host("tiny_a", 508, 480.0, 482.0)
+            host("tiny_b", 508, 481.998, 482.001, x_form=True)
         # back-to-back chain on one lane: each slice starts exactly where the previous one ends (no overlap at all)
         if spec.get("chain", True):
             t0 = 460.0
